@@ -15,6 +15,10 @@ func DepShapes(quick bool) []APoss {
 	archLists := [][]string{nil, {"amd64"}, {"amd64", "linux-any"}, {"kfreebsd-amd64"}, {"linux-any", "kfreebsd-amd64", "any-i386"}}
 	profs := [][][]AStage{nil, {{stg(false, "p")}}, {{stg(true, "p"), stg(false, "q")}}, {{stg(false, "p")}, {stg(true, "q")}}}
 	out := PossShapes(names, quals, ops, vers, archLists, profs)
+	// spellings of the version number that a normalising renderer would change (explicit zero epoch, padded epoch, empty
+	// or zero revision, hyphens and colons inside the upstream part): the number is text and must survive as written
+	spell := []string{"0:1.2-3", "00:1", "01:2.0", "1.0-", "1.0-0", "0:1", "1:0", "1.00", "1-1-1", "2:1:3", "1.0+b1~"}
+	out = append(out, PossShapes(names[:1], quals[:2], ops, spell, archLists[:2], profs[:2])...)
 	// alphabet audit: names / numbers a change introduced into the code appear as package name, qualifier, architecture,
 	// profile name and version text - ADDED to the product one dimension at a time (the product itself stays as it is)
 	for _, t := range AuditStrings(auditName, 6) {
